@@ -59,7 +59,8 @@ func (t SimTimeValue) ToTerraformValue(context.Context) (tftypes.Value, error) {
 	if t.Unknown {
 		return tftypes.NewValue(tftypes.String, tftypes.UnknownValue), nil
 	}
-	return tftypes.NewValue(tftypes.String, t.Value.UTC().Format(time.RFC3339Nano)), nil
+	// the zone offset is part of the stored string: an attribute that round-trips must keep it
+	return tftypes.NewValue(tftypes.String, t.Value.Format(time.RFC3339Nano)), nil
 }
 func (t SimTimeValue) Equal(other attr.Value) bool {
 	o, ok := other.(SimTimeValue)
